@@ -165,6 +165,9 @@ def main(spec, argv):
             mism = []
             for c, i_, m_ in zip(cases, impl, model):
                 pi = core.sx_parse(i_); pm = core.sx_parse(m_)
+                if m_.strip() == '(model-timeout)':
+                    dist['model-timeouts'] = dist.get('model-timeouts', 0) + 1
+                    continue
                 if spec.canon(pi) != spec.canon(pm):
                     mism.append((c, i_, m_))
                 if spec.nontrivial(core.sx_parse(c), pi):
